@@ -13,6 +13,8 @@ pub enum Operand {
     Const(i32),
     /// `\count1` .. `\count3` (values set in the preamble from `regs`)
     Reg(u8),
+    /// `\vpna` .. `\vpnc`: macros whose replacement text is the decimal value of `regs[i]`
+    Mac(u8),
 }
 
 #[derive(Clone, Copy, Debug, Serialize, Deserialize)]
@@ -33,7 +35,7 @@ pub enum CondKind {
 
 #[derive(Clone, Debug, Serialize, Deserialize)]
 pub enum Node {
-    /// a unique literal; rendered as two letters
+    /// a unique literal; rendered as three letters
     Tag,
     /// a balanced group around live material
     Group(Vec<Node>),
@@ -43,27 +45,68 @@ pub enum Node {
         branches: Vec<Vec<Node>>,
         else_: Option<Vec<Node>>,
         /// how the if / else / or / fi tokens are written: 0 = the primitive's own name, 1 = a control
-        /// sequence \let equal to it, 2 = an active character \let equal to it
+        /// sequence \let equal to it, 2 = an active character \let equal to it, 3 = a macro whose
+        /// replacement text is the primitive (only where the token is reached by expansion, i.e. at the
+        /// end of delivered text; elsewhere it is written like 1)
         alias: (u8, u8, u8, u8),
+        /// how the (last) operand of \ifnum / \ifodd / \ifcase ends: 0 = `\relax `, 1 = one space,
+        /// 2 = nothing: the number runs into whatever follows (branch text, a nested conditional,
+        /// or this conditional's own \else / \or / \fi - TeX.2021.510 inserts a \relax there)
+        #[serde(default)]
+        term: u8,
+        /// \ifnum only, between the first operand and the relation: 0 = nothing, 1 = one space,
+        /// 2 = two macros that expand to a space
+        #[serde(default)]
+        pre_rel: u8,
     },
     /// rendered only inside skipped text
     JunkOpen,
     JunkClose,
     JunkUndefined,
-    /// rendered only inside skipped text at nesting depth >= 1 below the skipping conditional
+    /// rendered only inside skipped text, at nesting depth >= 1 below the skipping conditional or at
+    /// depth 0 of text skipped after a delivered branch (by a live \else or \or)
     JunkOr,
-    /// a complete dummy conditional rendered only in skipped text: \iffalse \else \fi flavour
+    /// a complete dummy conditional rendered only in skipped text: \iftrue \else \else \fi
     JunkElseFi,
+    /// a character of category 12
+    Dot,
+    /// a character of category 12 followed by a space token
+    DotSpace,
+    /// a surplus \else; rendered where JunkOr is
+    JunkElse,
+    /// rendered only inside skipped text: a primitive other than the conditional ones that carries a
+    /// command tag in the implementation (\noexpand, \global, \def ...) or a few other primitives
+    JunkTagged(u8),
+    /// a complete \ifeof conditional, rendered only in skipped text
+    JunkIfEof,
+    /// rendered only inside skipped text: a macro whose replacement text is \fi / \else / \or /
+    /// \iftrue (not a conditional token for the purpose of skipping)
+    JunkMacro(u8),
+    /// rendered only inside skipped text of a case with `rebind_fi`: the control sequence \fi, which
+    /// then is a macro and no longer the primitive
+    JunkStaleFi,
 }
 
 #[derive(Clone, Debug, Serialize, Deserialize)]
 pub struct CondCase {
     pub regs: [i32; 3],
     pub body: Vec<Node>,
+    /// 0 = the program is read from the source line. Otherwise an initial part of the body is put
+    /// into a macro and delivered by calling it: 1 = the longest brace-balanced part (usually all of
+    /// it), n >= 2 selects one of the token boundaries recorded by the renderer.
+    #[serde(default)]
+    pub wrap: u16,
+    /// `\def\fi{zz}` in the preamble; the conditionals then use \myfi
+    #[serde(default)]
+    pub rebind_fi: bool,
 }
 
-const COND_PREAMBLE: &str = "\\catcode`\\@=13 \\catcode`\\?=13 \\catcode`\\&=13 \\catcode`\\_=13 \\catcode`\\;=13 \\catcode`\\|=13 \\catcode`\\!=13 \\catcode`\\~=13 \\let@=\\iftrue \\let?=\\iffalse \\let&=\\ifnum \\let_=\\ifodd \\let;=\\ifcase \\let|=\\else \\let!=\\or \\let~=\\fi \\let\\myiftrue=\\iftrue \\let\\myiffalse=\\iffalse \\let\\myifnum=\\ifnum \\let\\myifodd=\\ifodd \\let\\myifcase=\\ifcase \\let\\myelse=\\else \\let\\myor=\\or \\let\\myfi=\\fi ";
+const COND_PREAMBLE: &str = "\\catcode`\\@=13 \\catcode`\\?=13 \\catcode`\\&=13 \\catcode`\\_=13 \\catcode`\\;=13 \\catcode`\\|=13 \\catcode`\\!=13 \\catcode`\\~=13 \\let@=\\iftrue \\let?=\\iffalse \\let&=\\ifnum \\let_=\\ifodd \\let;=\\ifcase \\let|=\\else \\let!=\\or \\let~=\\fi \\let\\myiftrue=\\iftrue \\let\\myiffalse=\\iffalse \\let\\myifnum=\\ifnum \\let\\myifodd=\\ifodd \\let\\myifcase=\\ifcase \\let\\myelse=\\else \\let\\myor=\\or \\let\\myfi=\\fi \\def\\vpiftrue{\\iftrue}\\def\\vpiffalse{\\iffalse}\\def\\vpifnum{\\ifnum}\\def\\vpifodd{\\ifodd}\\def\\vpifcase{\\ifcase}\\def\\vpelse{\\else}\\def\\vpor{\\or}\\def\\vpfi{\\fi}\\def\\vpsp{ }";
 
+const TAGGED_JUNK: [&str; 14] = ["\\noexpand ", "\\global ", "\\long ", "\\outer ", "\\def ", "\\gdef ", "\\let ", "\\advance ", "\\countdef ", "\\expandafter ", "\\the ", "\\relax ", "\\multiply ", "\\catcode "];
+const MACRO_JUNK: [&str; 4] = ["\\vpfi ", "\\vpelse ", "\\vpor ", "\\vpiftrue "];
+
+#[derive(Default)]
 struct Render {
     text: String,
     expected: String,
@@ -72,8 +115,40 @@ struct Render {
     interesting_operand: bool,
     alias_in_skipped: bool,
     active_alias_in_skipped: bool,
-    junk_in_skipped: bool,
+    rebind_fi: bool,
+    /// bit per kind of junk rendered in skipped text
+    junk: u32,
+    /// surplus \else / \or at depth 0 of text skipped after a delivered branch
+    extra_else_or_after_live: bool,
+    macro_spelling_live: bool,
+    /// positions behind unterminated evaluated operands whose conditional does not select branch 0
+    false_after: Vec<usize>,
+    /// (byte position in `text`, live) right behind every unterminated operand
+    unterminated: Vec<(usize, bool)>,
+    space_ended: bool,
+    mac_operand_live: bool,
+    blank_before_relation: bool,
+    /// \ifcase selecting case >= 1 with a nested \ifcase in an earlier (skipped) case
+    nested_ifcase_skipped_by_ifcase: bool,
+    cond_after_live: bool,
+    opposite_extremes: bool,
+    /// token boundaries where the text may be split into macro body and source text:
+    /// (byte position, live)
+    splits: Vec<(usize, bool)>,
+    brace_depth: i32,
+    brace_negative: bool,
 }
+
+const J_OPEN: u32 = 1;
+const J_CLOSE: u32 = 2;
+const J_UNDEF: u32 = 4;
+const J_OR: u32 = 8;
+const J_ELSEFI: u32 = 16;
+const J_ELSE: u32 = 32;
+const J_TAGGED: u32 = 64;
+const J_IFEOF: u32 = 128;
+const J_MACRO: u32 = 256;
+const J_STALE: u32 = 512;
 
 fn tag_text(i: usize) -> String {
     let a = (b'a' + (i / 26 % 26) as u8) as char;
@@ -88,26 +163,168 @@ pub struct Deviations {
     pub ifodd_false_for_negative: bool,
 }
 
+fn clamp(v: i32) -> i32 {
+    if v == i32::MIN {
+        i32::MIN + 1
+    } else {
+        v
+    }
+}
+
+/// How text is being passed over: delivered, skipped by the conditional's own \if... (which is looking
+/// for its \else / \or / \fi), or skipped after a delivered branch (by a live \else or \or, which
+/// only looks for the \fi).
+#[derive(Clone, Copy, PartialEq)]
+enum Mode {
+    Live,
+    SkippedByIf,
+    SkippedAfterLive,
+}
+
+fn operand_value(o: &Operand, regs: &[i32; 3]) -> i64 {
+    match o {
+        Operand::Const(v) => clamp(*v) as i64,
+        Operand::Reg(r) | Operand::Mac(r) => clamp(regs[(*r % 3) as usize]) as i64,
+    }
+}
+
+/// The branch a conditional selects: index into `branches`, None = the \else part (or nothing).
+fn select(kind: &CondKind, regs: &[i32; 3], n_branches: usize, dev: Deviations) -> Option<usize> {
+    let yes = match kind {
+        CondKind::IfTrue => true,
+        CondKind::IfFalse => false,
+        CondKind::IfNum(a, rel, b) => {
+            let (av, bv) = (operand_value(a, regs), operand_value(b, regs));
+            match rel {
+                Rel::Lt => av < bv,
+                Rel::Eq => av == bv,
+                Rel::Gt => av > bv,
+            }
+        }
+        CondKind::IfOdd(a) => {
+            let av = operand_value(a, regs);
+            if dev.ifodd_false_for_negative {
+                av % 2 == 1
+            } else {
+                av.rem_euclid(2) == 1
+            }
+        }
+        CondKind::IfCase(a) => {
+            let av = operand_value(a, regs);
+            return if av >= 0 && (av as usize) < n_branches { Some(av as usize) } else { None };
+        }
+    };
+    if yes {
+        Some(0)
+    } else {
+        None
+    }
+}
+
+/// Text that is about to be skipped by its conditional's own \if..., but follows an unterminated
+/// operand and so is first scanned with expansion for more digits. Some(true): the scan certainly
+/// stops at an unexpandable token (a letter, another character, a brace) and all that was expanded on
+/// the way are complete or begun conditionals made of plain text only, which TeX then skips over
+/// correctly (TeX.2021.500). Some(false): something else would be expanded. None: these nodes are
+/// passed without the scan stopping (what follows them decides).
+fn scan_stops(ns: &[Node], regs: &[i32; 3], rebind_fi: bool, dev: Deviations) -> Option<bool> {
+    let plain = |ns: &[Node]| ns.iter().all(|n| matches!(n, Node::Tag | Node::Dot | Node::DotSpace));
+    for n in ns {
+        match n {
+            Node::Tag | Node::Dot | Node::DotSpace | Node::JunkOpen | Node::JunkClose => return Some(true),
+            // (no braces are written around skipped groups)
+            Node::Group(inner) => {
+                if let Some(r) = scan_stops(inner, regs, rebind_fi, dev) {
+                    return Some(r);
+                }
+            }
+            // not written at depth 0 of text skipped by the \if... itself
+            Node::JunkOr | Node::JunkElse => {}
+            Node::JunkStaleFi if !rebind_fi => {}
+            Node::Cond { kind, branches, else_, .. } if branches.iter().all(|b| plain(b)) && else_.as_ref().map_or(true, |e| plain(e)) => {
+                let nb = if matches!(kind, CondKind::IfCase(_)) { branches.len() } else { 1 };
+                let delivered = match select(kind, regs, nb, dev) {
+                    Some(i) => branches.get(i).map(|b| b.len()).unwrap_or(0),
+                    None => else_.as_ref().map(|e| e.len()).unwrap_or(0),
+                };
+                if delivered > 0 {
+                    return Some(true);
+                }
+            }
+            _ => return Some(false),
+        }
+    }
+    None
+}
+
 impl Render {
-    fn operand(&mut self, o: &Operand, regs: &[i32; 3]) -> i64 {
+    fn open(&mut self) {
+        self.text.push('{');
+        self.brace_depth += 1;
+    }
+    fn close(&mut self) {
+        self.text.push('}');
+        self.brace_depth -= 1;
+        if self.brace_depth < 0 {
+            self.brace_negative = true;
+        }
+    }
+    /// A token boundary at which the text rendered so far is brace-balanced.
+    fn split_point(&mut self, live: bool) {
+        if self.brace_depth == 0 && !self.brace_negative && !self.text.is_empty() {
+            self.splits.push((self.text.len(), live));
+        }
+    }
+
+    fn operand(&mut self, o: &Operand, regs: &[i32; 3], live: bool) -> i64 {
         match o {
             Operand::Const(v) => {
-                let v = if *v == i32::MIN { i32::MIN + 1 } else { *v };
+                let v = clamp(*v);
                 self.text.push_str(&format!("{}", v));
                 v as i64
             }
             Operand::Reg(r) => {
                 let r = (*r % 3) as usize;
                 self.text.push_str(&format!("\\count{}", r + 1));
-                regs[r] as i64
+                clamp(regs[r]) as i64
+            }
+            Operand::Mac(r) => {
+                let r = (*r % 3) as usize;
+                // the space belongs to the control word
+                self.text.push_str(["\\vpna ", "\\vpnb ", "\\vpnc "][r]);
+                self.mac_operand_live |= live;
+                clamp(regs[r]) as i64
             }
         }
     }
 
-    /// `live`: tokens are delivered; `skip_depth`: None when live, Some(d) = nesting depth of
-    /// conditionals below the conditional that is doing the skipping.
-    fn nodes(&mut self, ns: &[Node], regs: &[i32; 3], live: bool, skip_depth: usize, depth: usize, dev: Deviations) {
+    /// `branch0`: the conditional selects its first branch
+    fn terminator(&mut self, term: u8, live: bool, branch0: bool) {
+        match term {
+            0 => self.text.push_str("\\relax "),
+            // (behind a control word the space is not a token; the operand is then unterminated)
+            1 if !self.text.ends_with(' ') => {
+                self.text.push(' ');
+                self.space_ended |= live;
+            }
+            _ => {
+                self.unterminated.push((self.text.len(), live));
+                if live && !branch0 {
+                    self.false_after.push(self.text.len());
+                }
+            }
+        }
+        self.split_point(live);
+    }
+
+    /// `mode`: how this text is passed over; `skip_depth`: nesting depth of conditionals below the
+    /// conditional that is doing the skipping (0 when live).
+    fn nodes(&mut self, ns: &[Node], regs: &[i32; 3], mode: Mode, skip_depth: usize, depth: usize, dev: Deviations) {
+        let live = mode == Mode::Live;
+        // surplus \else and \or are legal in skipped text except where the skipping conditional would take them as its own
+        let extra_ok = !live && (skip_depth >= 1 || mode == Mode::SkippedAfterLive);
         for n in ns {
+            self.split_point(live);
             match n {
                 Node::Tag => {
                     let t = tag_text(self.next_tag);
@@ -117,46 +334,90 @@ impl Render {
                         self.expected.push_str(&t);
                     }
                 }
+                Node::Dot => {
+                    self.text.push('.');
+                    if live {
+                        self.expected.push('.');
+                    }
+                }
+                Node::DotSpace => {
+                    self.text.push_str(". ");
+                    if live {
+                        self.expected.push_str(". ");
+                    }
+                }
                 Node::Group(inner) => {
                     if live {
-                        self.text.push('{');
-                        self.nodes(inner, regs, live, skip_depth, depth, dev);
-                        self.text.push('}');
+                        self.open();
+                        self.nodes(inner, regs, mode, skip_depth, depth, dev);
+                        self.close();
                     } else {
-                        self.nodes(inner, regs, live, skip_depth, depth, dev);
+                        self.nodes(inner, regs, mode, skip_depth, depth, dev);
                     }
                 }
                 Node::JunkOpen => {
                     if !live {
-                        self.text.push('{');
-                        self.junk_in_skipped = true;
+                        self.open();
+                        self.junk |= J_OPEN;
                     }
                 }
                 Node::JunkClose => {
                     if !live {
-                        self.text.push('}');
-                        self.junk_in_skipped = true;
+                        self.close();
+                        self.junk |= J_CLOSE;
                     }
                 }
                 Node::JunkUndefined => {
                     if !live {
                         self.text.push_str("\\vpundefined ");
-                        self.junk_in_skipped = true;
+                        self.junk |= J_UNDEF;
                     }
                 }
                 Node::JunkOr => {
-                    if !live && skip_depth >= 1 {
+                    if extra_ok {
                         self.text.push_str("\\or ");
-                        self.junk_in_skipped = true;
+                        self.junk |= J_OR;
+                        self.extra_else_or_after_live |= skip_depth == 0;
+                    }
+                }
+                Node::JunkElse => {
+                    if extra_ok {
+                        self.text.push_str("\\else ");
+                        self.junk |= J_ELSE;
+                        self.extra_else_or_after_live |= skip_depth == 0;
                     }
                 }
                 Node::JunkElseFi => {
                     if !live {
-                        self.text.push_str("\\iftrue \\else \\else \\fi ");
-                        self.junk_in_skipped = true;
+                        self.text.push_str(if self.rebind_fi { "\\iftrue \\else \\else \\myfi " } else { "\\iftrue \\else \\else \\fi " });
+                        self.junk |= J_ELSEFI;
                     }
                 }
-                Node::Cond { kind, branches, else_, alias } => {
+                Node::JunkTagged(k) => {
+                    if !live {
+                        self.text.push_str(TAGGED_JUNK[*k as usize % TAGGED_JUNK.len()]);
+                        self.junk |= J_TAGGED;
+                    }
+                }
+                Node::JunkIfEof => {
+                    if !live {
+                        self.text.push_str(if self.rebind_fi { "\\ifeof 3 \\else \\myfi " } else { "\\ifeof 3 \\else \\fi " });
+                        self.junk |= J_IFEOF;
+                    }
+                }
+                Node::JunkMacro(k) => {
+                    if !live {
+                        self.text.push_str(MACRO_JUNK[*k as usize % MACRO_JUNK.len()]);
+                        self.junk |= J_MACRO;
+                    }
+                }
+                Node::JunkStaleFi => {
+                    if !live && self.rebind_fi {
+                        self.text.push_str("\\fi ");
+                        self.junk |= J_STALE;
+                    }
+                }
+                Node::Cond { kind, branches, else_, alias, term, pre_rel } => {
                     self.max_depth = self.max_depth.max(depth + 1);
                     let any_alias = alias.0 != 0 || alias.1 != 0 || alias.2 != 0 || alias.3 != 0;
                     if !live && any_alias {
@@ -165,33 +426,63 @@ impl Render {
                     if !live && (alias.0 == 2 || alias.1 == 2 || alias.2 == 2 || alias.3 == 2) {
                         self.active_alias_in_skipped = true;
                     }
-                    let spell = |name: &str, active: char, how: u8| -> String {
+                    if mode == Mode::SkippedAfterLive && skip_depth == 0 {
+                        self.cond_after_live = true;
+                    }
+                    let rebind_fi = self.rebind_fi;
+                    // `reached`: the token is met by expansion (it follows delivered text)
+                    let mut macro_spelling = false;
+                    let mut spell = |name: &str, active: char, how: u8, reached: bool| -> String {
                         match how {
+                            0 if name == "fi" && rebind_fi => "\\myfi ".to_string(),
                             0 => format!("\\{} ", name),
-                            1 => format!("\\my{} ", name),
-                            _ => active.to_string(),
+                            2 => active.to_string(),
+                            3 if reached => {
+                                macro_spelling = true;
+                                format!("\\vp{} ", name)
+                            }
+                            _ => format!("\\my{} ", name),
                         }
                     };
                     // which branch is selected (only meaningful when live)
                     let mut selected: Option<usize> = None; // index into branches, None => else
+                    // An evaluated number that nothing terminates is scanned with expansion into the
+                    // text that follows. Where that text is delivered this is what the tree semantics say
+                    // anyway. Where it is going to be skipped (the condition is false / another case is
+                    // selected) the scan must stop at an unexpandable token before anything happens that
+                    // the tree semantics do not describe; if that is not certain the operand gets its \relax.
+                    let branch0 = select(kind, regs, branches.len(), dev) == Some(0);
+                    let term = &if live && !branch0 && scan_stops(branches.first().map_or(&[][..], |b| &b[..]), regs, self.rebind_fi, dev) == Some(false) { 0 } else { *term };
                     match kind {
                         CondKind::IfTrue => {
-                            self.text.push_str(&spell("iftrue", '@', alias.0));
+                            self.text.push_str(&spell("iftrue", '@', alias.0, live));
                             selected = Some(0);
                         }
                         CondKind::IfFalse => {
-                            self.text.push_str(&spell("iffalse", '?', alias.0));
+                            self.text.push_str(&spell("iffalse", '?', alias.0, live));
                         }
                         CondKind::IfNum(a, rel, b) => {
-                            self.text.push_str(&spell("ifnum", '&', alias.0));
-                            let av = self.operand(a, regs);
+                            self.text.push_str(&spell("ifnum", '&', alias.0, live));
+                            let av = self.operand(a, regs, live);
+                            match pre_rel {
+                                0 => {}
+                                1 => {
+                                    if !self.text.ends_with(' ') {
+                                        self.text.push(' ');
+                                    }
+                                }
+                                _ => {
+                                    self.text.push_str("\\vpsp\\vpsp ");
+                                    self.blank_before_relation |= live;
+                                }
+                            }
                             self.text.push(match rel {
                                 Rel::Lt => '<',
                                 Rel::Eq => '=',
                                 Rel::Gt => '>',
                             });
-                            let bv = self.operand(b, regs);
-                            self.text.push_str("\\relax ");
+                            let bv = self.operand(b, regs, live);
+                            self.terminator(*term, live, branch0);
                             let r = match rel {
                                 Rel::Lt => av < bv,
                                 Rel::Eq => av == bv,
@@ -203,11 +494,14 @@ impl Render {
                             if live && (av < 0 || bv < 0 || av.abs() > 1 << 30 || bv.abs() > 1 << 30) {
                                 self.interesting_operand = true;
                             }
+                            if live && av.abs() > 1 << 30 && bv.abs() > 1 << 30 && (av < 0) != (bv < 0) {
+                                self.opposite_extremes = true;
+                            }
                         }
                         CondKind::IfOdd(a) => {
-                            self.text.push_str(&spell("ifodd", '_', alias.0));
-                            let av = self.operand(a, regs);
-                            self.text.push_str("\\relax ");
+                            self.text.push_str(&spell("ifodd", '_', alias.0, live));
+                            let av = self.operand(a, regs, live);
+                            self.terminator(*term, live, branch0);
                             let odd = if dev.ifodd_false_for_negative { av % 2 == 1 } else { av.rem_euclid(2) == 1 };
                             if odd {
                                 selected = Some(0);
@@ -217,9 +511,9 @@ impl Render {
                             }
                         }
                         CondKind::IfCase(a) => {
-                            self.text.push_str(&spell("ifcase", ';', alias.0));
-                            let av = self.operand(a, regs);
-                            self.text.push_str("\\relax ");
+                            self.text.push_str(&spell("ifcase", ';', alias.0, live));
+                            let av = self.operand(a, regs, live);
+                            self.terminator(*term, live, branch0);
                             if av >= 0 && (av as usize) < branches.len() {
                                 selected = Some(av as usize);
                             }
@@ -230,23 +524,39 @@ impl Render {
                     }
                     let is_case = matches!(kind, CondKind::IfCase(_));
                     let nb = if is_case { branches.len().max(1) } else { 1 };
+                    // text after the selected branch is skipped by a live \else / \or
+                    let mode_of = |i: Option<usize>| -> Mode {
+                        if !live {
+                            mode
+                        } else if selected == i {
+                            Mode::Live
+                        } else {
+                            match (selected, i) {
+                                (Some(s), Some(i)) if i > s => Mode::SkippedAfterLive,
+                                (Some(_), None) => Mode::SkippedAfterLive,
+                                _ => Mode::SkippedByIf,
+                            }
+                        }
+                    };
+                    let sd = if live { 0 } else { skip_depth + 1 };
                     for i in 0..nb {
                         if i > 0 {
-                            self.text.push_str(&spell("or", '!', alias.2));
+                            self.text.push_str(&spell("or", '!', alias.2, live && selected == Some(i - 1)));
                         }
                         let empty = vec![];
                         let b = branches.get(i).unwrap_or(&empty);
-                        let b_live = live && selected == Some(i);
-                        let sd = if live && !b_live { 0 } else { skip_depth + 1 };
-                        self.nodes(b, regs, b_live, if live { if b_live { 0 } else { 0 } } else { sd }, depth + 1, dev);
+                        if is_case && live && matches!(selected, Some(s) if s > i) && b.iter().any(|n| matches!(n, Node::Cond { kind: CondKind::IfCase(_), .. })) {
+                            self.nested_ifcase_skipped_by_ifcase = true;
+                        }
+                        self.nodes(b, regs, mode_of(Some(i)), sd, depth + 1, dev);
                     }
                     if let Some(e) = else_ {
-                        self.text.push_str(&spell("else", '|', alias.1));
-                        let e_live = live && selected.is_none();
-                        let sd = if live { 0 } else { skip_depth + 1 };
-                        self.nodes(e, regs, e_live, sd, depth + 1, dev);
+                        self.text.push_str(&spell("else", '|', alias.1, live && selected == Some(nb - 1)));
+                        self.nodes(e, regs, mode_of(None), sd, depth + 1, dev);
                     }
-                    self.text.push_str(&spell("fi", '~', alias.3));
+                    let fi_reached = live && if else_.is_some() { selected.is_none() } else { selected == Some(nb - 1) };
+                    self.text.push_str(&spell("fi", '~', alias.3, fi_reached));
+                    self.macro_spelling_live |= macro_spelling;
                 }
             }
         }
@@ -258,18 +568,98 @@ pub struct BuiltCond {
     pub expected: String,
     pub max_depth: usize,
     pub nontrivial: bool,
-    pub active_alias_in_skipped: bool,
+    pub classes: Vec<&'static str>,
+}
+
+fn starts_with_else_or_fi(rest: &str) -> bool {
+    if rest.starts_with(['|', '!', '~']) {
+        return true;
+    }
+    ["\\else ", "\\or ", "\\fi ", "\\myelse ", "\\myor ", "\\myfi ", "\\vpelse ", "\\vpor ", "\\vpfi "].iter().any(|p| rest.starts_with(p))
+}
+
+fn starts_with_if(rest: &str) -> bool {
+    if rest.starts_with(['@', '?', '&', '_', ';']) {
+        return true;
+    }
+    ["\\if", "\\myif", "\\vpif"].iter().any(|p| rest.starts_with(p))
 }
 
 pub fn build_cond(c: &CondCase, dev: Deviations) -> BuiltCond {
-    let mut r = Render { text: String::from(COND_PREAMBLE), expected: String::new(), next_tag: 0, max_depth: 0, interesting_operand: false, alias_in_skipped: false, active_alias_in_skipped: false, junk_in_skipped: false };
-    for i in 0..3 {
-        r.text.push_str(&format!("\\count{}={}\\relax ", i + 1, c.regs[i]));
+    let mut r = Render { rebind_fi: c.rebind_fi, ..Default::default() };
+    let regs = [clamp(c.regs[0]), clamp(c.regs[1]), clamp(c.regs[2])];
+    r.nodes(&c.body, &regs, Mode::Live, 0, 0, dev);
+    r.split_point(true);
+    let mut classes: Vec<&'static str> = vec![];
+    let mut class_if = |c: bool, name: &'static str| {
+        if c {
+            classes.push(name);
+        }
+    };
+    // how the body reaches the interpreter
+    let body = std::mem::take(&mut r.text);
+    let mut text = String::from(COND_PREAMBLE);
+    if c.rebind_fi {
+        // (\vpfi must then lead to the primitive under its other name)
+        text.push_str("\\def\\fi{zz}\\def\\vpfi{\\myfi}");
     }
-    r.nodes(&c.body, &c.regs, true, 0, 0, dev);
-    r.text.push('%');
-    let nontrivial = r.max_depth >= 3 || r.interesting_operand || r.alias_in_skipped;
-    BuiltCond { text: r.text, expected: r.expected, max_depth: r.max_depth, nontrivial, active_alias_in_skipped: r.active_alias_in_skipped }
+    for i in 0..3 {
+        text.push_str(&format!("\\count{}={}\\relax \\def\\vpn{}{{{}}}", i + 1, regs[i], ["a", "b", "c"][i], regs[i]));
+    }
+    let candidates: Vec<(usize, bool)> = r.splits.iter().copied().filter(|(p, _)| !body[*p..].starts_with(' ')).collect();
+    let split = match (c.wrap, candidates.len()) {
+        (0, _) | (_, 0) => None,
+        (1, n) => Some(candidates[n - 1]),
+        (w, n) => Some(candidates[(w as usize - 2) % n]),
+    };
+    match split {
+        None => text.push_str(&body),
+        Some((p, live)) => {
+            text.push_str("\\def\\vpbody{");
+            text.push_str(&body[..p]);
+            text.push_str("}\\vpbody ");
+            text.push_str(&body[p..]);
+            class_if(p == body.len(), "whole body delivered by a macro");
+            class_if(p < body.len(), "body starts in a macro and continues in the source line");
+            class_if(p < body.len() && !live, "skipping starts in a macro body and ends in the source line");
+            class_if(r.unterminated.iter().any(|(q, l)| *q == p && *l) && p < body.len(), "operand read across the end of a macro body");
+        }
+    }
+    text.push('%');
+    let mut ended_by_eof_live = false;
+    for (p, live) in &r.unterminated {
+        let rest = &body[*p..];
+        let eof = starts_with_else_or_fi(rest);
+        let cond = starts_with_if(rest);
+        ended_by_eof_live |= eof && *live;
+        class_if(eof && *live, "evaluated operand ended by else/or/fi (TeX.2021.510 inserts \\relax)");
+        class_if(eof && *live && body[..*p].ends_with(|ch: char| ch.is_ascii_digit()) && body[..*p].trim_end_matches(|ch: char| ch.is_ascii_digit()).ends_with("\\count"), "register index ended by else/or/fi");
+        class_if(eof && !*live, "operand ended by else/or/fi in skipped text");
+        class_if(cond && *live, "conditional expanded while an operand is being read");
+        class_if(cond && *live && r.false_after.contains(p), "conditional expanded while an operand is being read, then skipped with the rest");
+        class_if(!eof && !cond && *live, "evaluated operand ended by branch text");
+    }
+    class_if(r.space_ended, "evaluated operand ended by a space");
+    class_if(r.mac_operand_live, "evaluated operand produced by a macro");
+    class_if(r.blank_before_relation, "blank space from macros before the relation");
+    class_if(r.macro_spelling_live, "if/else/or/fi delivered by a macro");
+    class_if(r.junk != 0, "junk in skipped text");
+    class_if(r.junk & (J_OPEN | J_CLOSE) != 0, "junk: unbalanced brace");
+    class_if(r.junk & J_UNDEF != 0, "junk: undefined control sequence");
+    class_if(r.junk & (J_OR | J_ELSE | J_ELSEFI) != 0, "junk: surplus else/or in nested skipped conditional");
+    class_if(r.extra_else_or_after_live, "junk: surplus else/or at depth 0 of text skipped after a delivered branch");
+    class_if(r.junk & J_TAGGED != 0, "junk: other tagged primitive");
+    class_if(r.junk & J_IFEOF != 0, "junk: ifeof conditional");
+    class_if(r.junk & J_MACRO != 0, "junk: macro containing fi/else/or/iftrue");
+    class_if(r.junk & J_STALE != 0, "junk: control sequence fi rebound to a macro");
+    class_if(r.nested_ifcase_skipped_by_ifcase, "ifcase skips over a nested ifcase");
+    class_if(r.cond_after_live, "conditional in text skipped after a delivered branch");
+    class_if(r.opposite_extremes, "ifnum on extremes of opposite sign");
+    class_if(r.active_alias_in_skipped, "active-character alias of a conditional primitive in skipped text");
+    let nontrivial = r.max_depth >= 3 || r.interesting_operand || r.alias_in_skipped || ended_by_eof_live;
+    let mut seen = std::collections::BTreeSet::new();
+    classes.retain(|c| seen.insert(*c));
+    BuiltCond { text, expected: r.expected, max_depth: r.max_depth, nontrivial, classes }
 }
 
 fn int_strategy() -> impl Strategy<Value = i32> {
@@ -281,7 +671,7 @@ fn int_strategy() -> impl Strategy<Value = i32> {
 }
 
 fn operand_strategy() -> impl Strategy<Value = Operand> {
-    prop_oneof![3 => int_strategy().prop_map(Operand::Const), 1 => (0u8..3).prop_map(Operand::Reg)]
+    prop_oneof![6 => int_strategy().prop_map(Operand::Const), 2 => (0u8..3).prop_map(Operand::Reg), 1 => (0u8..3).prop_map(Operand::Mac)]
 }
 
 fn kind_strategy() -> impl Strategy<Value = CondKind> {
@@ -295,28 +685,47 @@ fn kind_strategy() -> impl Strategy<Value = CondKind> {
 }
 
 fn alias_strategy() -> impl Strategy<Value = u8> {
-    prop_oneof![7 => Just(0u8), 2 => Just(1u8), 2 => Just(2u8)]
+    prop_oneof![7 => Just(0u8), 2 => Just(1u8), 2 => Just(2u8), 1 => Just(3u8)]
+}
+
+/// (alias, term, pre_rel)
+fn spelling_strategy() -> impl Strategy<Value = ((u8, u8, u8, u8), u8, u8)> {
+    (
+        (alias_strategy(), alias_strategy(), alias_strategy(), alias_strategy()),
+        prop_oneof![3 => Just(0u8), 2 => Just(1u8), 5 => Just(2u8)],
+        prop_oneof![8 => Just(0u8), 1 => Just(1u8), 1 => Just(2u8)],
+    )
+}
+
+fn leaf_strategy() -> impl Strategy<Value = Node> {
+    prop_oneof![
+        12 => Just(Node::Tag),
+        1 => Just(Node::Dot),
+        1 => Just(Node::DotSpace),
+        2 => Just(Node::JunkOpen),
+        2 => Just(Node::JunkClose),
+        2 => Just(Node::JunkUndefined),
+        2 => Just(Node::JunkOr),
+        2 => Just(Node::JunkElse),
+        2 => Just(Node::JunkElseFi),
+        2 => (0u8..14).prop_map(Node::JunkTagged),
+        1 => Just(Node::JunkIfEof),
+        1 => (0u8..4).prop_map(Node::JunkMacro),
+        1 => Just(Node::JunkStaleFi),
+    ]
 }
 
 fn node_strategy() -> impl Strategy<Value = Node> {
-    let leaf = prop_oneof![
-        6 => Just(Node::Tag),
-        1 => Just(Node::JunkOpen),
-        1 => Just(Node::JunkClose),
-        1 => Just(Node::JunkUndefined),
-        1 => Just(Node::JunkOr),
-        1 => Just(Node::JunkElseFi),
-    ];
-    leaf.prop_recursive(6, 48, 4, |inner| {
+    leaf_strategy().prop_recursive(6, 48, 4, |inner| {
         prop_oneof![
             1 => proptest::collection::vec(inner.clone(), 0..3).prop_map(Node::Group),
             5 => (
                 kind_strategy(),
                 proptest::collection::vec(proptest::collection::vec(inner.clone(), 0..3), 1..4),
                 proptest::option::weighted(0.7, proptest::collection::vec(inner, 0..3)),
-                (alias_strategy(), alias_strategy(), alias_strategy(), alias_strategy()),
+                spelling_strategy(),
             )
-                .prop_map(|(kind, branches, else_, alias)| Node::Cond { kind, branches, else_, alias }),
+                .prop_map(|(kind, branches, else_, (alias, term, pre_rel))| Node::Cond { kind, branches, else_, alias, term, pre_rel }),
         ]
     })
 }
@@ -328,17 +737,17 @@ fn spine_strategy(d: u32) -> BoxedStrategy<Node> {
     if d == 0 {
         return Just(Node::Tag).boxed();
     }
-    let small = || proptest::collection::vec(prop_oneof![4 => Just(Node::Tag), 1 => Just(Node::JunkOpen), 1 => Just(Node::JunkClose), 1 => Just(Node::JunkOr), 1 => Just(Node::JunkElseFi)], 0..2);
+    let small = || proptest::collection::vec(prop_oneof![4 => Just(Node::Tag), 1 => Just(Node::JunkOpen), 1 => Just(Node::JunkClose), 1 => Just(Node::JunkOr), 1 => Just(Node::JunkElse), 1 => Just(Node::JunkElseFi)], 0..2);
     (
         kind_strategy(),
         proptest::collection::vec(small(), 1..4),
         proptest::option::weighted(0.7, small()),
-        (alias_strategy(), alias_strategy(), alias_strategy(), alias_strategy()),
+        spelling_strategy(),
         any::<u16>(),
         any::<bool>(),
         spine_strategy(d - 1),
     )
-        .prop_map(|(kind, mut branches, mut else_, alias, pos, before, child)| {
+        .prop_map(|(kind, mut branches, mut else_, (alias, term, pre_rel), pos, before, child)| {
             let slots = branches.len() + usize::from(else_.is_some());
             let k = ((pos as usize) * slots) >> 16;
             let target = if k < branches.len() { &mut branches[k] } else { else_.as_mut().unwrap() };
@@ -347,7 +756,7 @@ fn spine_strategy(d: u32) -> BoxedStrategy<Node> {
             } else {
                 target.push(child);
             }
-            Node::Cond { kind, branches, else_, alias }
+            Node::Cond { kind, branches, else_, alias, term, pre_rel }
         })
         .boxed()
 }
@@ -357,7 +766,8 @@ fn cond_case_strategy() -> impl Strategy<Value = CondCase> {
         3 => proptest::collection::vec(node_strategy(), 1..4),
         1 => (1u32..7).prop_flat_map(|d| (proptest::collection::vec(Just(Node::Tag), 0..2), spine_strategy(d)).prop_map(|(mut v, n)| { v.push(n); v.push(Node::Tag); v })),
     ];
-    ([int_strategy(), int_strategy(), int_strategy()], body).prop_map(|(regs, body)| CondCase { regs, body })
+    let wrap = prop_oneof![6 => Just(0u16), 1 => Just(1u16), 3 => 2u16..];
+    ([int_strategy(), int_strategy(), int_strategy()], body, wrap, proptest::bool::weighted(0.1)).prop_map(|(regs, body, wrap, rebind_fi)| CondCase { regs, body, wrap, rebind_fi })
 }
 
 fn cond_oracle(ctx: &Ctx, c: &CondCase, case: &mut Case) -> Verdict {
@@ -367,7 +777,9 @@ fn cond_oracle(ctx: &Ctx, c: &CondCase, case: &mut Case) -> Verdict {
     case.class_if(b.max_depth >= 5, "depth>=5");
     case.class_if(b.max_depth >= 6, "depth>=6");
     case.class_if(b.nontrivial, "nontrivial");
-    case.class_if(b.active_alias_in_skipped, "active-character alias of a conditional primitive in skipped text");
+    for c in &b.classes {
+        case.class(c);
+    }
     let r = texvm::run_program(&VmOptions::default(), &b.text);
     let got = texvm::plain(&r.out);
     if r.error.is_none() && got == b.expected {
@@ -401,10 +813,15 @@ pub enum XTok {
     Else,
     Fi,
     Relax,
+    XaActive, // ~ (\let~=\expandafter)
 }
 
-const XP_PREAMBLE: &str = "\\def\\A{\\B x}\\def\\B{\\C y}\\def\\C{z}\\def\\E{}\\def\\F{\\A\\A}\\def\\D#1{[#1]}\\count1=7\\relax \\let\\xa=\\expandafter ";
+const XP_PREAMBLE: &str = "\\def\\A{\\B x}\\def\\B{\\C y}\\def\\C{z}\\def\\E{}\\def\\F{\\A\\A}\\def\\D#1{[#1]}\\count1=7\\relax \\let\\xa=\\expandafter \\catcode`\\~=13 \\let~=\\expandafter ";
 const MACROS: [&str; 5] = ["A", "B", "C", "E", "F"];
+
+fn is_xa(t: &XTok) -> bool {
+    matches!(t, XTok::Xa | XTok::XaAlias | XTok::XaActive)
+}
 
 fn render_x(ts: &[XTok]) -> String {
     let mut s = String::new();
@@ -412,6 +829,7 @@ fn render_x(ts: &[XTok]) -> String {
         match t {
             XTok::Xa => s.push_str("\\expandafter "),
             XTok::XaAlias => s.push_str("\\xa "),
+            XTok::XaActive => s.push('~'),
             XTok::NoExpand => s.push_str("\\noexpand "),
             XTok::M(i) => {
                 s.push('\\');
@@ -437,6 +855,7 @@ fn xtok_strategy() -> impl Strategy<Value = XTok> {
     prop_oneof![
         6 => Just(XTok::Xa),
         2 => Just(XTok::XaAlias),
+        1 => Just(XTok::XaActive),
         2 => Just(XTok::NoExpand),
         6 => (0u8..5).prop_map(XTok::M),
         1 => Just(XTok::D),
@@ -506,19 +925,17 @@ fn diff_oracle(ts: &Vec<XTok>, case: &mut Case) -> Verdict {
     let ts = &well_form(ts);
     let text = format!("{}{}%", XP_PREAMBLE, render_x(ts));
     case.note = Some(text.clone());
-    let run = |simple: bool| {
+    let run = |simple: bool, recover: bool| {
         crate::engine::panics::catch(|| {
-            let opts = VmOptions { simple_expandafter: simple, budget: 5000, ..Default::default() };
+            let opts = VmOptions { simple_expandafter: simple, budget: 5000, count_and_continue: recover, ..Default::default() };
             texvm::run_program(&opts, &text)
         })
     };
-    let a = run(false);
-    let b = run(true);
     let mut chain = 0;
     let mut max_chain = 0;
     let mut i = 0;
     while i < ts.len() {
-        if matches!(ts[i], XTok::Xa | XTok::XaAlias) {
+        if is_xa(&ts[i]) {
             chain += 1;
             max_chain = max_chain.max(chain);
             i += 2;
@@ -529,81 +946,160 @@ fn diff_oracle(ts: &Vec<XTok>, case: &mut Case) -> Verdict {
     }
     case.class_if(max_chain >= 2, "chain>=2");
     case.class_if(max_chain >= 4, "chain>=4");
-    match (a, b) {
-        (Ok(a), Ok(b)) => {
-            case.class_if(a.error.is_some(), "ends in error");
-            if a.out != b.out || a.error != b.error {
-                return Verdict::Fail(format!(
-                    "optimised and simple \\expandafter differ\nprogram:   {}\noptimised: {} error={:?}\nsimple:    {} error={:?}",
-                    text,
-                    texvm::render(&a.out),
-                    a.error,
-                    texvm::render(&b.out),
-                    b.error
-                ));
+    case.class_if(ts.contains(&XTok::XaActive), "active-character alias of \\expandafter");
+    // First in error-stop mode (the first error ends the run); if it ended in an error, again with
+    // recovery from every recoverable error, so that what follows the error is compared as well.
+    for recover in [false, true] {
+        match (run(false, recover), run(true, recover)) {
+            (Ok(a), Ok(b)) => {
+                if !recover {
+                    case.class_if(a.error.is_some(), "ends in error");
+                } else {
+                    case.class_if(!a.recovered_titles.is_empty(), "compared beyond a recovered error");
+                    case.class_if(a.recovered_titles.len() >= 2, "compared beyond two recovered errors");
+                }
+                if a.out != b.out || a.error != b.error || a.recovered_titles != b.recovered_titles {
+                    return Verdict::Fail(format!(
+                        "optimised and simple \\expandafter differ{}\nprogram:   {}\noptimised: {} error={:?} recovered={:?}\nsimple:    {} error={:?} recovered={:?}",
+                        if recover { " (recovering from errors)" } else { "" },
+                        text,
+                        texvm::render(&a.out),
+                        a.error,
+                        a.recovered_titles,
+                        texvm::render(&b.out),
+                        b.error,
+                        b.recovered_titles
+                    ));
+                }
+                if a.error.is_none() {
+                    break;
+                }
             }
-            Verdict::pass(max_chain >= 2)
-        }
-        (Err(pa), Err(pb)) => {
-            if pa.budget && pb.budget {
-                Verdict::Skip("budget")
-            } else if pa.budget != pb.budget {
-                Verdict::Fail(format!("one implementation exceeds the budget, the other panics: {} / {}\nprogram: {}", pa.message, pb.message, text))
-            } else {
-                // Both panic the same way: a totality matter (C09), not a difference.
-                Verdict::Skip("both panic (C09)")
+            (Err(pa), Err(pb)) => {
+                if pa.budget && pb.budget {
+                    if recover {
+                        case.class("recovery run exceeds the budget");
+                        break;
+                    }
+                    return Verdict::Skip("budget");
+                } else if pa.budget != pb.budget {
+                    return Verdict::Fail(format!("one implementation exceeds the budget, the other panics: {} / {}\nprogram: {}", pa.message, pb.message, text));
+                } else if recover {
+                    break;
+                } else {
+                    // Both panic the same way: a totality matter (C09), not a difference.
+                    return Verdict::Skip("both panic (C09)");
+                }
             }
-        }
-        (Ok(_), Err(p)) | (Err(p), Ok(_)) => {
-            if p.budget {
-                Verdict::Fail(format!("only one implementation exceeds the expansion budget\nprogram: {}", text))
-            } else {
-                Verdict::Fail(format!("only one implementation panics: {} at {}\nprogram: {}", p.message, p.site(), text))
+            (Ok(_), Err(p)) | (Err(p), Ok(_)) => {
+                if p.budget {
+                    return Verdict::Fail(format!("only one implementation exceeds the expansion budget\nprogram: {}", text));
+                } else {
+                    return Verdict::Fail(format!("only one implementation panics: {} at {}\nprogram: {}", p.message, p.site(), text));
+                }
             }
         }
     }
+    Verdict::pass(max_chain >= 2)
 }
 
-/// One-step expansion model over a restricted alphabet: \expandafter (and alias), parameterless
-/// macros, letters.
-fn expand_once_model(s: &[XTok]) -> Option<Vec<XTok>> {
+/// A token of the model's output: an input token, or a character produced by an expansion.
+#[derive(Clone, Copy, Debug, PartialEq)]
+enum MTok {
+    X(XTok),
+    Ch(char, u8),
+}
+
+/// One-step expansion model: what `s` looks like after its first token has been expanded once, and
+/// the kind of token that was finally expanded. \expandafter (and its aliases) recursively, macros
+/// without and with one parameter, \the\count1, \iftrue and \iffalse (which skips to its \else or
+/// \fi); everything unexpandable is left alone. `None`: outside the model (error, or \noexpand).
+fn expand_once_model(s: &[XTok]) -> Option<(Vec<MTok>, &'static str)> {
     if s.is_empty() {
         return None;
     }
+    let rest = |k: usize| s[k..].iter().map(|t| MTok::X(*t));
+    let x = |v: Vec<XTok>| v.into_iter().map(MTok::X);
     Some(match s[0] {
         XTok::M(i) => {
-            let mut out = match i % 5 {
+            let body = match i % 5 {
                 0 => vec![XTok::M(1), XTok::L(23)], // \B x   (L(23) renders as 'x' below)
                 1 => vec![XTok::M(2), XTok::L(24)], // \C y
                 2 => vec![XTok::L(25)],             // z
                 3 => vec![],
                 _ => vec![XTok::M(0), XTok::M(0)],
             };
-            out.extend_from_slice(&s[1..]);
-            out
+            (x(body).chain(rest(1)).collect(), "macro")
         }
-        XTok::Xa | XTok::XaAlias => {
-            if s.len() < 3 {
+        XTok::Xa | XTok::XaAlias | XTok::XaActive => {
+            // the token that is stepped over must be a single token in this rendering
+            if s.len() < 3 || s[1] == XTok::TheCount {
                 return None;
             }
-            let mut out = vec![s[1]];
-            out.extend(expand_once_model(&s[2..])?);
-            out
+            let (tail, kind) = expand_once_model(&s[2..])?;
+            (std::iter::once(MTok::X(s[1])).chain(tail).collect(), kind)
         }
-        _ => s.to_vec(),
+        XTok::D => {
+            if s.len() < 2 || matches!(s[1], XTok::TheCount | XTok::Open | XTok::Close) {
+                return None;
+            }
+            ([MTok::Ch('[', 12), MTok::X(s[1]), MTok::Ch(']', 12)].into_iter().chain(rest(2)).collect(), "macro with a parameter")
+        }
+        XTok::TheCount => (std::iter::once(MTok::Ch('7', 12)).chain(rest(1)).collect(), "\\the"),
+        XTok::IfTrue => (rest(1).collect(), "\\iftrue"),
+        XTok::IfFalse => {
+            let mut depth = 0;
+            let mut end = None;
+            for (k, t) in s.iter().enumerate().skip(1) {
+                match t {
+                    XTok::IfTrue | XTok::IfFalse => depth += 1,
+                    XTok::Else if depth == 0 => {
+                        end = Some(k);
+                        break;
+                    }
+                    XTok::Fi => {
+                        if depth == 0 {
+                            end = Some(k);
+                            break;
+                        }
+                        depth -= 1;
+                    }
+                    _ => {}
+                }
+            }
+            (rest(end? + 1).collect(), "\\iffalse")
+        }
+        // no conditional is open: an error
+        XTok::Else | XTok::Fi => return None,
+        XTok::NoExpand => return None,
+        XTok::L(_) | XTok::Open | XTok::Close | XTok::Relax => (rest(0).collect(), "unexpandable"),
     })
 }
 
-fn model_tok_to_out(t: &XTok) -> OutTok {
+fn model_tok_to_out(t: &MTok, out: &mut Vec<OutTok>) {
+    let cs = |n: &str| OutTok::Cs(n.into());
     match t {
-        XTok::Xa => OutTok::Cs("expandafter".into()),
-        XTok::XaAlias => OutTok::Cs("xa".into()),
-        XTok::M(i) => OutTok::Cs(MACROS[(*i % 5) as usize].into()),
-        XTok::L(23) => OutTok::Ch('x', 11),
-        XTok::L(24) => OutTok::Ch('y', 11),
-        XTok::L(25) => OutTok::Ch('z', 11),
-        XTok::L(i) => OutTok::Ch((b'a' + (*i % 4)) as char, 11),
-        other => panic!("not in the model alphabet: {other:?}"),
+        MTok::Ch(c, cat) => out.push(OutTok::Ch(*c, *cat)),
+        MTok::X(t) => match t {
+            XTok::Xa => out.push(cs("expandafter")),
+            XTok::XaAlias => out.push(cs("xa")),
+            XTok::XaActive => out.push(OutTok::Active('~')),
+            XTok::NoExpand => out.push(cs("noexpand")),
+            XTok::M(i) => out.push(cs(MACROS[(*i % 5) as usize])),
+            XTok::D => out.push(cs("D")),
+            XTok::TheCount => out.extend([cs("the"), cs("count"), OutTok::Ch('1', 12), OutTok::Ch(' ', 10)]),
+            XTok::L(23) => out.push(OutTok::Ch('x', 11)),
+            XTok::L(24) => out.push(OutTok::Ch('y', 11)),
+            XTok::L(25) => out.push(OutTok::Ch('z', 11)),
+            XTok::L(i) => out.push(OutTok::Ch((b'a' + (*i % 4)) as char, 11)),
+            XTok::Open => out.push(OutTok::Ch('{', 1)),
+            XTok::Close => out.push(OutTok::Ch('}', 2)),
+            XTok::IfTrue => out.push(cs("iftrue")),
+            XTok::IfFalse => out.push(cs("iffalse")),
+            XTok::Else => out.push(cs("else")),
+            XTok::Fi => out.push(cs("fi")),
+            XTok::Relax => out.push(cs("relax")),
+        },
     }
 }
 
@@ -611,10 +1107,47 @@ fn chain_strategy() -> impl Strategy<Value = Vec<XTok>> {
     let t = prop_oneof![
         6 => Just(XTok::Xa),
         2 => Just(XTok::XaAlias),
+        1 => Just(XTok::XaActive),
         5 => (0u8..5).prop_map(XTok::M),
         3 => (0u8..4).prop_map(XTok::L),
     ];
-    proptest::collection::vec(t, 1..14)
+    let free = proptest::collection::vec(t, 1..14);
+    // \expandafter t1 \expandafter t2 ... \expandafter tn <target>: the first token of the target is
+    // what gets expanded (a ti that is itself \expandafter only moves the place by one pair)
+    let xa = || prop_oneof![3 => Just(XTok::Xa), 1 => Just(XTok::XaAlias), 1 => Just(XTok::XaActive)];
+    let stepped_over = prop_oneof![
+        4 => (0u8..4).prop_map(XTok::L),
+        3 => (0u8..5).prop_map(XTok::M),
+        2 => xa(),
+        1 => Just(XTok::D),
+        1 => Just(XTok::Relax),
+        1 => Just(XTok::IfTrue),
+        1 => Just(XTok::IfFalse),
+        1 => Just(XTok::Else),
+        1 => Just(XTok::Fi),
+    ];
+    let m = || (0u8..5).prop_map(XTok::M);
+    let l = || (0u8..4).prop_map(XTok::L);
+    let target = prop_oneof![
+        2 => (m(), l()).prop_map(|(m, l)| vec![XTok::IfTrue, m, l, XTok::Fi]),
+        2 => Just(vec![XTok::TheCount]),
+        2 => prop_oneof![l(), m(), xa(), Just(XTok::Fi)].prop_map(|a| vec![XTok::D, a]),
+        2 => (l(), m()).prop_map(|(l, m)| vec![XTok::IfFalse, l, XTok::Else, m, XTok::Fi]),
+        1 => (l(), m()).prop_map(|(l, m)| vec![XTok::IfFalse, XTok::D, l, XTok::Fi, m]),
+        1 => (l(), m()).prop_map(|(l, m)| vec![XTok::IfFalse, XTok::IfTrue, l, XTok::Else, XTok::TheCount, XTok::Fi, l, XTok::Else, m, XTok::Fi]),
+        1 => m().prop_map(|m| vec![m]),
+        1 => Just(vec![XTok::Relax]),
+    ];
+    let aimed = (proptest::collection::vec((xa(), stepped_over), 0..6), target).prop_map(|(pairs, target)| {
+        let mut v = vec![];
+        for (a, b) in pairs {
+            v.push(a);
+            v.push(b);
+        }
+        v.extend(target);
+        v
+    });
+    prop_oneof![1 => free, 1 => aimed]
 }
 
 fn chain_oracle(ts: &Vec<XTok>, simple: bool, case: &mut Case) -> Verdict {
@@ -622,19 +1155,31 @@ fn chain_oracle(ts: &Vec<XTok>, simple: bool, case: &mut Case) -> Verdict {
     let mut s = ts.clone();
     s.push(XTok::L(0));
     s.push(XTok::L(1));
-    let Some(model) = expand_once_model(&s) else { return Verdict::Skip("malformed") };
-    let expected: Vec<OutTok> = model.iter().map(model_tok_to_out).collect();
+    let Some((model, kind)) = expand_once_model(&s) else { return Verdict::Skip("malformed") };
+    let mut expected: Vec<OutTok> = vec![];
+    for t in &model {
+        model_tok_to_out(t, &mut expected);
+    }
     let text = format!("{}\\expandafter\\vpcapture {}\\vpstop%", XP_PREAMBLE, render_x(&s));
     case.note = Some(text.clone());
     let opts = VmOptions { simple_expandafter: simple, budget: 5000, ..Default::default() };
     let r = texvm::run_program(&opts, &text);
     let mut k = 0;
-    while k < s.len() && matches!(s[k], XTok::Xa | XTok::XaAlias) {
+    while k < s.len() && is_xa(&s[k]) {
         k += 2;
     }
     let chain = k / 2;
     case.class_if(chain >= 2, "chain>=2");
     case.class_if(chain >= 4, "chain>=4");
+    case.class_if(s.contains(&XTok::XaActive), "active-character alias of \\expandafter");
+    case.class(match kind {
+        "macro" => "expanded token: macro",
+        "macro with a parameter" => "expanded token: macro with a parameter",
+        "\\the" => "expanded token: \\the",
+        "\\iftrue" => "expanded token: \\iftrue",
+        "\\iffalse" => "expanded token: \\iffalse (skips to \\else or \\fi)",
+        _ => "expanded token: unexpandable",
+    });
     if r.error.is_some() || r.out != expected {
         return Verdict::Fail(format!(
             "\\expandafter{} does not expand exactly one token once\nprogram:  {}\nexpected: {}\ngot:      {} error={:?}",
@@ -648,52 +1193,149 @@ fn chain_oracle(ts: &Vec<XTok>, simple: bool, case: &mut Case) -> Verdict {
     Verdict::pass(chain >= 2)
 }
 
-#[derive(Clone, Copy, Debug, Serialize, Deserialize)]
+#[derive(Clone, Debug, Serialize, Deserialize)]
 pub enum NTok {
     NoExpandM(u8),
     M(u8),
     L(u8),
+    /// \noexpand before a letter (nothing to suppress; the letter must not get lost)
+    NoExpandL(u8),
+    /// \noexpand before an expandable primitive (see NOEXPAND_PRIMS), which then is not executed
+    NoExpandPrim(u8),
+    /// \noexpand\relax
+    NoExpandRelax,
+    /// the inner sequence inside a delivered branch of a conditional:
+    /// 0 = \iftrue..\fi, 1 = \iffalse q\else..\fi, 2 = \ifcase 1 q\or..\else q\fi
+    InCond(u8, Vec<NTok>),
 }
 
-fn noexpand_oracle(ts: &Vec<NTok>, case: &mut Case) -> Verdict {
-    let full = ["zyx", "zy", "z", "", "zyxzyx"];
-    let mut text = String::from(XP_PREAMBLE);
-    let mut expected: Vec<OutTok> = vec![];
-    let mut n_noexpand = 0;
-    for t in ts {
-        match t {
-            NTok::NoExpandM(i) => {
-                let m = MACROS[(*i % 5) as usize];
-                text.push_str(&format!("\\noexpand\\{} ", m));
-                expected.push(OutTok::Cs(m.into()));
-                n_noexpand += 1;
-            }
-            NTok::M(i) => {
-                text.push_str(&format!("\\{} ", MACROS[(*i % 5) as usize]));
-                for c in full[(*i % 5) as usize].chars() {
-                    expected.push(OutTok::Ch(c, 11));
+const NOEXPAND_PRIMS: [&str; 10] = ["fi", "else", "or", "iftrue", "iffalse", "ifnum", "expandafter", "noexpand", "the", "xa"];
+
+#[derive(Default)]
+struct NRender {
+    text: String,
+    expected: Vec<OutTok>,
+    n_noexpand: usize,
+    before_unexpandable: bool,
+    before_conditional: bool,
+    before_expansion_primitive: bool,
+    in_branch: bool,
+}
+
+impl NRender {
+    fn toks(&mut self, ts: &[NTok], in_cond: bool) {
+        let full = ["zyx", "zy", "z", "", "zyxzyx"];
+        for t in ts {
+            match t {
+                NTok::NoExpandM(i) => {
+                    let m = MACROS[(*i % 5) as usize];
+                    self.text.push_str(&format!("\\noexpand\\{} ", m));
+                    self.expected.push(OutTok::Cs(m.into()));
+                    self.n_noexpand += 1;
+                    self.in_branch |= in_cond;
                 }
-            }
-            NTok::L(i) => {
-                let c = (b'a' + (*i % 4)) as char;
-                text.push(c);
-                expected.push(OutTok::Ch(c, 11));
+                NTok::M(i) => {
+                    self.text.push_str(&format!("\\{} ", MACROS[(*i % 5) as usize]));
+                    for c in full[(*i % 5) as usize].chars() {
+                        self.expected.push(OutTok::Ch(c, 11));
+                    }
+                }
+                NTok::L(i) => {
+                    let c = (b'a' + (*i % 4)) as char;
+                    self.text.push(c);
+                    self.expected.push(OutTok::Ch(c, 11));
+                }
+                NTok::NoExpandL(i) => {
+                    let c = (b'a' + (*i % 4)) as char;
+                    self.text.push_str(&format!("\\noexpand {}", c));
+                    self.expected.push(OutTok::Ch(c, 11));
+                    self.n_noexpand += 1;
+                    self.before_unexpandable = true;
+                }
+                NTok::NoExpandRelax => {
+                    self.text.push_str("\\noexpand\\relax ");
+                    self.n_noexpand += 1;
+                    self.before_unexpandable = true;
+                }
+                NTok::NoExpandPrim(i) => {
+                    let k = *i as usize % NOEXPAND_PRIMS.len();
+                    let name = NOEXPAND_PRIMS[k];
+                    self.text.push_str(&format!("\\noexpand\\{} ", name));
+                    self.expected.push(OutTok::Cs(name.into()));
+                    self.n_noexpand += 1;
+                    self.in_branch |= in_cond;
+                    if k < 6 {
+                        self.before_conditional = true;
+                    } else {
+                        self.before_expansion_primitive = true;
+                    }
+                }
+                NTok::InCond(k, inner) => {
+                    match k % 3 {
+                        0 => {
+                            self.text.push_str("\\iftrue ");
+                            self.toks(inner, true);
+                            self.text.push_str("\\fi ");
+                        }
+                        1 => {
+                            self.text.push_str("\\iffalse q\\else ");
+                            self.toks(inner, true);
+                            self.text.push_str("\\fi ");
+                        }
+                        _ => {
+                            self.text.push_str("\\ifcase 1 q\\or ");
+                            self.toks(inner, true);
+                            self.text.push_str("\\else q\\fi ");
+                        }
+                    }
+                }
             }
         }
     }
-    text.push('%');
+}
+
+fn noexpand_oracle(ts: &Vec<NTok>, case: &mut Case) -> Verdict {
+    let mut r = NRender { text: String::from(XP_PREAMBLE), ..Default::default() };
+    r.toks(ts, false);
+    r.text.push('%');
+    let (text, expected) = (r.text, r.expected);
     case.note = Some(text.clone());
-    let r = texvm::run_program(&VmOptions::default(), &text);
-    if r.error.is_some() || r.out != expected {
-        return Verdict::Fail(format!("\\noexpand does not suppress exactly one expansion\nprogram:  {}\nexpected: {}\ngot:      {} error={:?}", text, texvm::render(&expected), texvm::render(&r.out), r.error));
+    case.class_if(r.before_unexpandable, "\\noexpand before an unexpandable token");
+    case.class_if(r.before_conditional, "\\noexpand before a conditional primitive");
+    case.class_if(r.before_expansion_primitive, "\\noexpand before \\expandafter / \\noexpand / \\the");
+    case.class_if(r.in_branch, "\\noexpand of an expandable token inside a delivered conditional branch");
+    let res = texvm::run_program(&VmOptions::default(), &text);
+    if res.error.is_some() || res.out != expected {
+        return Verdict::Fail(format!("\\noexpand does not suppress exactly one expansion\nprogram:  {}\nexpected: {}\ngot:      {} error={:?}", text, texvm::render(&expected), texvm::render(&res.out), res.error));
     }
-    Verdict::pass(n_noexpand >= 1 && ts.len() >= 2)
+    Verdict::pass(r.n_noexpand >= 1 && ts.len() >= 2)
+}
+
+fn ntok_strategy() -> impl Strategy<Value = Vec<NTok>> {
+    let flat = || {
+        prop_oneof![
+            4 => (0u8..5).prop_map(NTok::NoExpandM),
+            4 => (0u8..5).prop_map(NTok::M),
+            4 => (0u8..4).prop_map(NTok::L),
+            1 => (0u8..4).prop_map(NTok::NoExpandL),
+            3 => (0u8..10).prop_map(NTok::NoExpandPrim),
+            1 => Just(NTok::NoExpandRelax),
+        ]
+    };
+    let t = prop_oneof![
+        8 => flat(),
+        1 => (0u8..3, proptest::collection::vec(flat(), 0..5)).prop_map(|(k, v)| NTok::InCond(k, v)),
+    ];
+    proptest::collection::vec(t, 0..10)
 }
 
 pub fn run(ctx: &Ctx) {
-    ctx.rule("conditionals: well-nested trees (depth 0..6) of \\iftrue \\iffalse \\ifnum \\ifodd \\ifcase with \\or/\\else/\\fi, i32 operands (constants or \\count reads), unique 3-letter tags in every branch, junk (unbalanced braces, undefined control sequences, \\or at nesting depth>=1, extra \\else inside a nested conditional) and \\let-aliases (control sequences and active characters) of every conditional primitive in live and skipped text; output compared with a tree evaluator. non-trivial = depth>=3 or a negative/out-of-range operand evaluated or an aliased primitive in skipped text. expansion: random token streams run under the optimised and the simple \\expandafter (differential), chains of \\expandafter^k against a one-step expansion model observed with \\vpcapture, and \\noexpand sequences; non-trivial = chain length>=2; distinct by program text");
+    ctx.rule("conditionals: well-nested trees (depth 0..6) of \\iftrue \\iffalse \\ifnum \\ifodd \\ifcase with \\or/\\else/\\fi, i32 operands (constants, \\count reads, macros expanding to the digits) ended by \\relax, by a space or by nothing (the number then runs into branch text, a nested conditional or the conditional's own \\else/\\or/\\fi, TeX.2021.510), unique 3-letter tags and occasional other characters/spaces in every branch, junk (unbalanced braces, undefined control sequences, surplus \\or/\\else at nesting depth>=1 or behind a delivered branch, other tagged primitives, \\ifeof, macros containing \\fi) and \\let-aliases (control sequences and active characters) of every conditional primitive in live and skipped text, macros delivering a conditional primitive where it is reached by expansion, the body optionally delivered wholly or partly from a macro; output compared with a tree evaluator. non-trivial = depth>=3 or a negative/out-of-range operand evaluated or an aliased primitive in skipped text or an evaluated operand ended by else/or/fi. expansion: random token streams run under the optimised and the simple \\expandafter (differential, with and without recovery from errors), chains of \\expandafter^k against a one-step expansion model (targets: macros without/with parameter, \\the, \\iftrue, \\iffalse) observed with \\vpcapture, and \\noexpand sequences (before macros, letters, \\relax, conditional and expansion primitives, at top level and inside delivered branches); non-trivial = chain length>=2; distinct by program text");
     ctx.assume("\\or at nesting depth 0 of a skipped non-\\ifcase branch is an error in TeX (Extra \\or) and is not generated");
     ctx.assume("\\expandafter applied to \\noexpand is only checked differentially (its TeX meaning involves the dont_expand marker and is outside the stated property)");
+    ctx.assume("an evaluated operand that nothing terminates is only followed by to-be-skipped text whose first token is unexpandable or the conditional's own \\else/\\or/\\fi (anything else would be expanded by TeX before it is skipped); otherwise the operand gets its \\relax");
+    ctx.assume("the \\relax that TeX.2021.510 inserts in front of \\else/\\or/\\fi is not observable in the delivered characters and is not demanded");
+    ctx.assume("\\noexpand before an undefined control sequence is not generated (neither macro nor primitive)");
     let n = ctx.tier.pick(250_000u64, 3_000_000u64);
     run_generated(ctx, "conditionals", n, cond_case_strategy, |c: &CondCase, case| cond_oracle(ctx, c, case));
     let n = ctx.tier.pick(120_000u64, 2_000_000u64);
@@ -702,6 +1344,5 @@ pub fn run(ctx: &Ctx) {
     run_generated(ctx, "expandafter_model_optimised", n, chain_strategy, |ts: &Vec<XTok>, case| chain_oracle(ts, false, case));
     run_generated(ctx, "expandafter_model_simple", n / 2, chain_strategy, |ts: &Vec<XTok>, case| chain_oracle(ts, true, case));
     let n = ctx.tier.pick(40_000u64, 400_000u64);
-    let nt = prop_oneof![(0u8..5).prop_map(NTok::NoExpandM), (0u8..5).prop_map(NTok::M), (0u8..4).prop_map(NTok::L)];
-    run_generated(ctx, "noexpand", n, move || proptest::collection::vec(nt.clone(), 0..10), |ts: &Vec<NTok>, case| noexpand_oracle(ts, case));
+    run_generated(ctx, "noexpand", n, ntok_strategy, |ts: &Vec<NTok>, case| noexpand_oracle(ts, case));
 }
